@@ -457,6 +457,8 @@ func (c *Csr) PubKey() (*PubKey, error) { return PubFromSPKI(c.KeyAlg, c.PubBits
 // standard library does not know, by package ecv. ecv's agreement with the standard library on the
 // NIST curves is part of ecv's own tests.
 
+func StdCurve(c *ecv.Curve) elliptic.Curve { return stdCurve(c) }
+
 func stdCurve(c *ecv.Curve) elliptic.Curve {
 	switch c.Name {
 	case "P-224":
